@@ -111,6 +111,13 @@ class Report:
             print(f"VIOLATION property={self.prop} replay={path}")
             print(f"  {v['what']}")
             code = EXIT_VIOLATION
+        unconfirmed = int(cov.get("unconfirmed_counterexamples") or 0)
+        if code == EXIT_HELD and unconfirmed > 0:
+            # the solver found real-arithmetic / model-level disagreements that did not reproduce on the real library
+            # with doubles and real strings: never a verdict of "held"
+            print(f"INCONCLUSIVE property={self.prop} {unconfirmed} solver-found disagreements did not reproduce concretely "
+                  f"(see evidence: unconfirmed_counterexamples)", file=sys.stderr)
+            code = EXIT_INCONCLUSIVE
         if code == EXIT_HELD:
             tot = total if total is not None else max(1, cov.get("evaluations", 1))
             if self.errors or self.twins_failed:
